@@ -15,10 +15,18 @@ TruncOK(before, after, size) ==
     IN /\ Len(after) = (IF size < Len(before) THEN size ELSE Len(before))
        /\ \A v \in vals : Count(after, v) <= Count(before, v)
        /\ \A v \in vals, w \in vals : (Count(after, v) < Count(before, v) /\ Count(after, w) > 0) => w >= v
+\* Two solutions the comparators cannot tell apart: identical objective vectors and markers of equal rank (equal, or equal magnitude
+\* with opposite sign).  The Pareto archive keeps both unless they are the same signed-cost vector; the epsilon comparator "always names
+\* a loser for identical vectors" (C01) -- either one -- so an epsilon archive holds one representative of the pair, whichever.
+TieSet(S, x) == { y \in S : y.c = x.c /\ MarkCmp(y, x) = 0 /\ y # x }
+Allowed(S, x, comp) ==
+    IF (\E y \in S : Dominates(y, x) \/ y = x) \/ TieSet(S, x) = {} \/ comp # "eps" THEN { NDInsert(S, x) }
+    ELSE { S, (S \ TieSet(S, x)) \cup {x} }
 AddEv(e) ==
-    LET nd2 == NDInsert(nd, e.x) IN
+    LET allowed == Allowed(nd, e.x, e.comp)
+        nd2 == IF SeqRange(e.after) \in allowed THEN SeqRange(e.after) ELSE NDInsert(nd, e.x) IN
     /\ Clause("no-exception", e.exc = "")
-    /\ Clause("content-is-nondominated-set", SeqRange(e.after) = nd2)
+    /\ Clause("content-is-nondominated-set", SeqRange(e.after) \in allowed)
     /\ Clause("one-representative-each", Cardinality(SeqRange(e.after)) = Len(e.after))
     /\ Clause("result-iff-inserted", e.res = e.inserted)
     /\ Clause("inserted-is-member", e.inserted => e.x \in SeqRange(e.after))
